@@ -137,7 +137,10 @@ class DiskProp(object):
         ops = []
 
         def fd(max_granules=6, big_ok=True):
-            return GF.file_desc(rng, "dsk", big_ok=big_ok, unique=unique, max_granules=max_granules)
+            d = GF.file_desc(rng, "dsk", big_ok=big_ok, unique=unique, max_granules=max_granules)
+            if big_ok and rng.chance(0.01) and not (d["dtype"] == 0xFF and d["ftype"] != 2):
+                d["len"] = rng.choice([65536, 70000])      # too long for the 16-bit length word of its kind: must be refused
+            return d
 
         def peer_save():
             return {"op": "peer_save", "file": fd(), "policy": rng.choice(RD.POLICIES), "pseed": rng.below(1 << 16),
@@ -272,6 +275,8 @@ class DiskProp(object):
                     res.stats["fault:peer_write"] += 1
                     last_file = materialise(op["file"])
                     img = bytearray(st["img"])
+                    if not (last_file["dtype"] == 0xFF and last_file["ftype"] != 2) and len(last_file["data"]) > 65535:
+                        last_file = dict(last_file, data=last_file["data"][:65535])     # the peer cannot write such a file either
                     try:
                         slot = RD.save(img, last_file, op["policy"], op["pseed"], op["convention"], want_slot=op.get("slot"))
                         if slot >= 68:
@@ -416,7 +421,21 @@ class DiskProp(object):
         _, err = w.call(cont.add_file, to_coco(f))
         fits = n <= F and S >= 1
         undecided = exact and n == F and S >= 1
+        if not (f["dtype"] == 0xFF and f["ftype"] != 2) and len(f["data"]) > 65535:
+            fits = False           # a 16-bit length word cannot describe it: the tool has to refuse
+            res.stats["fault:file_too_long_for_its_length_word"] += 1
         if err is not None:
+            if self.judge == "C07" and st["model"]:
+                # a refused addition is an addition too: the files stored before it must still list from this very object
+                listed, lerr = w.call(cont.list_files)
+                if lerr is not None:
+                    res.violate("REFUSED-ADD-DAMAGED-STORED-FILES", "after a refused add the container can no longer list the files stored before: %s: %s" % (
+                        type(lerr).__name__, str(lerr)[:100]), k)
+                else:
+                    before_n = len(res.violations)
+                    self.compare_listing(res, [from_coco(cf) for cf in listed], [st["model"][s] for s in sorted(st["model"])], k, "AFTER-REFUSED-ADD-")
+                    if len(res.violations) == before_n:
+                        res.stats["probe:stored_files_still_list_after_refused_add"] += 1
             st["cont"] = None      # the in-memory image carries provisional marks and is never saved: drop it
             res.stats["fault:medium_full" if not fits else "add_error"] += 1
             if fits and not undecided:
@@ -468,6 +487,8 @@ class DiskProp(object):
         # what file_util stores is what it reads from the source cassette; types without a disk preamble distinction are kept
         if not f["data"]:
             f = dict(f, data=b"\x00")     # an empty file on the source cassette is the C06 known finding, not this check's business
+        if not (f["dtype"] == 0xFF and f["ftype"] != 2) and len(f["data"]) > 65535:
+            f = dict(f, data=f["data"][:65535])
         # file_util stores what its cassette reader hands it: 8-character name, extension BIN for ML else BAS
         f = dict(f, name=f["name"][:8], ext="BIN" if f["ftype"] == 2 else "BAS")
         src = RT.write_file(dict(f, gap=0), leader=128, blank=128)
